@@ -195,31 +195,12 @@ impl<
         let current = allocator.get_field(Field::Capacity);
 
         // if the number of nodes is greater than the capacity, then the tree has
-        // been resized and we might need to add the new nodes as free nodes
+        // been resized; the new nodes do not need to be added to the free list:
+        // the free list is terminated by the current `sequence` value and nodes
+        // from `sequence` up to the capacity are handed out in order once the
+        // free list is exhausted
         if nodes.len() > current as usize {
             allocator.set_field(Field::Capacity, nodes.len() as u8);
-
-            let sequence = allocator.get_field(Field::Sequence);
-            let free_list_head = allocator.get_field(Field::FreeListHead);
-
-            // if sequence == free_list_head, then the tree is full and there are none
-            // free nodes; in this case, extending the tree will add the new nodes; when
-            // sequence != free_list_head, then we need to add the new nodes to the free
-            // list since there are free nodes available
-            if sequence != free_list_head {
-                for i in current..nodes.len() as u8 {
-                    // nodes are indexed starting from 1
-                    let index = i + 1;
-                    let node = &mut node!(nodes, index);
-
-                    // adds the new node as the head of the free list
-                    let free_list_head = allocator.get_field(Field::FreeListHead);
-                    node.set_register(Register::Height, free_list_head);
-                    allocator.set_field(Field::FreeListHead, index);
-                }
-
-                allocator.set_field(Field::Sequence, nodes.len() as u8 + 1);
-            }
         }
 
         Self { allocator, nodes }
